@@ -25,6 +25,24 @@ class Unsupported(Exception):
     pass
 
 
+_INVENTORY = None
+
+
+def known_functions():
+    """qualified names of the functions the rules were written against (baseline/functions.json).  A package function that is NOT in
+    this inventory is a helper introduced later (an extracted function): the rules cannot name it, so calls to it are looked through
+    (inlined) instead of being left as opaque call terms.  On the inventoried tree nothing is inlined."""
+    global _INVENTORY
+    if _INVENTORY is None:
+        import json
+        import pathlib
+        f = pathlib.Path(__file__).resolve().parent.parent / "baseline" / "functions.json"
+        _INVENTORY = set(json.load(open(f))) if f.exists() else None
+        if _INVENTORY is None:
+            _INVENTORY = False
+    return _INVENTORY
+
+
 class Event:
     __slots__ = ("kind", "data", "line")
 
@@ -336,6 +354,13 @@ class Evaluator:
         return tuple(out)
 
     def e_Call(self, n, st):
+        g = self.new_helper(n, st)
+        if g is not None and not any(isinstance(x, (ast.If, ast.For, ast.While, ast.Try, ast.With, ast.IfExp, ast.Raise)) for b in g.node.body for x in ast.walk(b)):
+            # a straight-line helper used inside a larger expression: its single path is run in place
+            res = list(self.inline(g, n, st))
+            if len(res) == 1 and res[0][2] is None and res[0][0] is st:
+                return res[0][1]
+            raise Unsupported("helper %s could not be looked through" % g.qual)
         f = self.ev(n.func, st)
         args = self.expand_args(n.args, st)
         kws = []
@@ -523,8 +548,90 @@ class Evaluator:
             else:
                 yield from self.run(rest, st2)
 
+    # ------------------------------------------------------------------ looking through helpers that the rules do not know
+    def new_helper(self, call, st):
+        """the package Function called by `call` if it is not in the inventory of known functions, else None"""
+        inv = known_functions()
+        if not inv or not isinstance(call, ast.Call) or getattr(self, "inline_depth", 0) >= 3:
+            return None
+        f = call.func
+        g = None
+        if isinstance(f, ast.Name) and f.id not in st.env and f.id not in self.closure_env:
+            g = self.pkg.functions.get(self.pkg.resolve_name(self.module, f.id))
+        elif isinstance(f, ast.Attribute) and isinstance(f.value, ast.Name) and f.value.id == "self" and self.fn.cls is not None and st.env.get("self") == ("param", "self"):
+            g = self.pkg.find_method(self.fn.cls.qual, f.attr)
+        elif isinstance(f, ast.Attribute) and isinstance(f.value, ast.Name) and f.value.id not in st.env:
+            q = self.pkg.resolve_name(self.module, f.value.id + "." + f.attr)
+            g = self.pkg.functions.get(q)
+        if g is None or g.qual in inv or g.qual == self.fn.qual or g.is_property or g.decorators or g.vararg or g.kwarg:
+            return None
+        if any(isinstance(a, ast.Starred) for a in call.args) or any(k.arg is None for k in call.keywords):
+            return None
+        return g
+
+    def inline(self, g, call, st):
+        """run the body of helper `g` in place of the call: generator of (state, value term | None, exit) where exit is a raise exit
+        or None; the caller's environment is restored in every resulting state"""
+        names = g.call_params if g.is_method else list(g.posparams)
+        env = {}
+        if g.is_method:
+            env["self"] = ("param", "self")
+        pos = [self.ev(a, st) for a in call.args]
+        if len(pos) > len(names):
+            raise Unsupported("too many positional arguments for helper " + g.qual)
+        for nm, v in zip(names, pos):
+            env[nm] = v
+        for k in call.keywords:
+            env[k.arg] = self.ev(k.value, st)
+        saved = (self.fn, self.module, getattr(self, "inline_depth", 0))
+        caller_env = st.env
+        self.fn, self.module, self.inline_depth = g, g.module, saved[2] + 1
+        try:
+            for nm in g.params:
+                if nm not in env and nm not in ("self", "cls"):
+                    if nm not in g.defaults:
+                        raise Unsupported("missing argument %s for helper %s" % (nm, g.qual))
+                    env[nm] = self.ev(g.defaults[nm], State({}))
+            env.update({k: v for k, v in caller_env.items() if k.startswith("self.")})
+            st.env = env
+            self.emit(st, "inline-enter", (g.qual,), call)
+            gen = self.run(list(g.node.body), st)
+            while True:
+                try:
+                    st2, ex = next(gen)
+                except StopIteration:
+                    break
+                back = dict(caller_env)
+                back.update({k: v for k, v in st2.env.items() if k.startswith("self.")})
+                st2.env = back
+                self.fn, self.module, self.inline_depth = saved
+                self.emit(st2, "inline-exit", (g.qual,), call)
+                if ex is None:
+                    yield st2, NONE, None
+                elif ex[0] == "return":
+                    yield st2, ex[1], None
+                else:
+                    yield st2, None, ex
+                self.fn, self.module, self.inline_depth = g, g.module, saved[2] + 1
+        finally:
+            self.fn, self.module, self.inline_depth = saved
+
     def stmt(self, s, st):
         self.npaths += 0
+        if isinstance(s, (ast.Expr, ast.Assign, ast.Return)) and s.value is not None:
+            g = self.new_helper(s.value, st)
+            if g is not None:
+                for st2, val, ex in self.inline(g, s.value, st):
+                    if ex is not None:
+                        yield st2, ex
+                    elif isinstance(s, ast.Return):
+                        yield st2, ("return", val, s.lineno)
+                    else:
+                        if isinstance(s, ast.Assign):
+                            for t in s.targets:
+                                self.bind(t, val, st2, s)
+                        yield st2, None
+                return
         if isinstance(s, ast.Expr):
             if isinstance(s.value, ast.Constant):
                 yield st, None
